@@ -194,3 +194,6 @@ func verifH_C11_symbolic_ref() {
 	verifAssert(!badRead, "C11: with external references disallowed no location other than the root document is read, whatever the reference text")
 	verifReach("end")
 }
+
+//verif:harness id=C11 tier=quick,thorough witness=end bounds="external references allowed: a reference nested inside an externally loaded object of five kinds, reached by whole-file reference or fragment from sub-directories, spelled relative to its own file, with same-named decoy files in the root's directory and above: only the root, the containing file and the file the nested reference designates are read (shared with C02's nested harness)"
+func verifH_C11_nested() { verifNestedRefs("C11") }
